@@ -1974,6 +1974,9 @@ func (ex *Exec) siteAsserts(fr *frame, st *State, cc *ssa.CallCommon, instr ssa.
 		}
 	}
 	for _, key := range []string{kind + ":" + name, fmt.Sprintf("%s:%s:%d", kind, name, ord)} {
+		if len(ex.topC.Asserts[key]) > 0 {
+			ex.assertHits[key]++
+		}
 		for i, cl := range ex.topC.Asserts[key] {
 			var lc *loopCtx
 			ctx := ex.ctxFor(fr, st, lc)
